@@ -20,6 +20,9 @@ iteration order (`Input.oracle`), every configuration whose other features requi
 -/
 namespace XmppModel.Props.C02
 open XmppModel XmppModel.StartTLS
+-- (the types of the probe tables are nested deeply enough for the default limit of the instance
+-- search that finds their decidable equality)
+set_option synthInstance.maxSize 1024
 
 /-! ### Tie to the source: regenerated facts -/
 
@@ -54,7 +57,6 @@ theorem C02_gen_start_state_table :
     Generated.C02.startStateProbe = some (startStateDomain.map fun i => (i, startStateModel i)) := by
   decide +kernel
 
-set_option synthInstance.maxSize 1024 in
 /-- **negotiator.go + features.go, the first features list**: for every tee variant (off, TeeIn,
 TeeOut, both), every clear connection kind, the first list empty / naming only an unknown
 feature / STARTTLS optional / STARTTLS required, and a peer that then stays silent or says
@@ -85,6 +87,45 @@ different, c2s and s2s, STARTTLS advertised / forced / refused / never reached) 
 closure variable is never changed (`negotiateName` returns it as it was). -/
 theorem C02_gen_server_name_table :
     Generated.C02.serverNameProbe = some (serverNameDomain.map fun i => (i, serverNameModel i)) := by
+  decide +kernel
+
+/-- **negotiator.go, the addresses of the peer's stream header, probed on the real code**: for
+every `to` of the address universe (none, own address, other localpart / domain / resourcepart,
+bare domains, same and other lengths) and every kind of `from`, in the header received in clear
+text and in the header received after the TLS switch, on c2s and s2s sessions, the observable
+trace and the outcome of the real `NewSession` are the model's: a header is
+accepted only with the session's own address (or none) as `to`, the ClientHello names the own
+domain, the own address stays what it was. -/
+theorem C02_gen_header_address_table :
+    Generated.C02.headerAddressProbe = some headerAddressExpected ∧
+    ∀ rr rt sk, headerAddressExpected = headerAddressDomain.map fun i => (i, headerAddressModel rr rt sk i) := by
+  refine ⟨by decide, ?_⟩
+  intro rr rt sk
+  cases rr <;> cases rt <;> cases sk <;> decide +kernel
+
+/-- … and `LocalAddr()` after each of those calls is the model's: the address the session was
+created with -/
+theorem C02_gen_header_local_table :
+    Generated.C02.headerLocalProbe = some headerLocalExpected ∧
+    ∀ rr rt sk, headerLocalExpected = headerAddressDomain.map fun i => (i, headerLocalModel rr rt sk i) := by
+  refine ⟨by decide, ?_⟩
+  intro rr rt sk
+  cases rr <;> cases rt <;> cases sk <;> decide +kernel
+
+/-- **addresses are values** (stream.Info.FromStartElement, jid unmarshalling): for every ordered
+pair of an address universe that contains addresses of equal and of different shapes, parsing a
+header into a shallow copy of a stream info (`newIn := *in`) gives the copy the header's address
+and leaves the value it was copied from — the session's, the caller's — as it was.  The model's
+sessions are immutable values; this is the corresponding fact about the code. -/
+theorem C02_gen_info_copy_table :
+    Generated.C02.infoCopyProbe = some (infoCopyDomain.map fun i => (i, infoCopyModel i)) := by
+  decide +kernel
+
+/-- **sasl.go, every configuration of mechanisms**: for each of the 31 non-empty sets of PLAIN,
+SCRAM-SHA-1(-PLUS), SCRAM-SHA-256(-PLUS) the value the real `xmpp.SASL` returns requires `Secure`,
+is prohibited once `Authn`, and is negotiable — the masks do not depend on the mechanisms. -/
+theorem C02_gen_sasl_masks_all_mechanisms :
+    Generated.C02.saslMaskProbe = some (saslMaskDomain.map fun m => (m, saslMaskModel m)) := by
   decide +kernel
 
 /-- starttls.go: the code reached from `StartTLS` writes no state shared by the sessions that use
@@ -235,6 +276,24 @@ theorem C02_gen_builtin_features_comply :
   revert st0
   rcases hf with rfl | rfl <;> decide
 
+/-- … and so is STARTTLS + SASL + bind for EVERY set of mechanisms the authentication feature can
+be configured with (the table of the real values, one row per set) -/
+theorem C02_gen_builtin_features_comply_all_mechanisms :
+    ∃ tbl bn bp, Generated.C02.saslMaskProbe = some tbl ∧ Generated.C02.bindNecessary = some bn ∧
+      Generated.C02.bindProhibited = some bp ∧ tbl.map (·.1) = saslMaskDomain ∧
+      ∀ row ∈ tbl, ∀ st0 : Mask, has st0 Secure = false → has st0 Authn = false →
+        ∀ rr rt sk, Compliant ⟨rr, rt, sk, [⟨7, BitVec.ofNat 8 row.2.1, BitVec.ofNat 8 row.2.2.1, row.2.2.2⟩,
+                                     ⟨8, BitVec.ofNat 8 bn, BitVec.ofNat 8 bp, true⟩]⟩ st0 := by
+  refine ⟨_, _, _, C02_gen_sasl_masks_all_mechanisms, rfl, rfl, ?_, ?_⟩
+  · simp [List.map_map, Function.comp_def]
+  · intro row hrow
+    obtain ⟨m, _, rfl⟩ := List.mem_map.1 hrow
+    simp only [saslMaskModel, saslFeature]
+    intro st0 hs ha rr rt sk f hf
+    simp only [List.mem_cons, List.not_mem_nil, or_false] at hf
+    revert st0
+    rcases hf with rfl | rfl <;> decide
+
 /-- **The negotiation ends with the peer's input.**  Every negotiator call that does not stop
 consumes at least one unit of the peer's script; with more fuel than the script has units a run
 never ends for lack of fuel — the loops of `negotiateSession` and `intstream.Expect` cannot
@@ -273,7 +332,62 @@ theorem C02_tee_transparent (cfg : Cfg) (env : Env) (st0 : Mask) (i : Input) (fu
 /-- negotiating never changes the configuration captured by the feature value -/
 theorem C02_feature_value_unchanged (cfg : Cfg) (env : Env) (st0 : Mask) (i : Input) (fuel : Nat) :
     capturedAfter cfg env st0 i fuel = env.captured :=
-  (run_names cfg env st0 i fuel).2
+  (run_names cfg env st0 i fuel).2.1
+
+/-! ### The session's own address is not the peer's to choose
+
+`Session.LocalAddr()` is `Session.in.Info.To`, and the negotiator assigns the stream info from
+every header it accepts (`*in = newIn`); `StartTLS(nil)` names `LocalAddr().Domain()`.  The peer
+writes that header — before TLS anyone on the path does. -/
+
+/-- **A header is accepted only if its `to` is absent or the address the session already has, and
+its `from` is absent or the remote address** — in every session state, secured or not (the check
+does not depend on the state at all). -/
+theorem C02_header_address_check (f : HFrom) (t : Option Addr) (s : Sess) :
+    (∀ s', acceptHdr f t s = .ok () s' → f ≠ .differ ∧ (t = none ∨ t = some s.laddr) ∧ s' = s) ∧
+    (f = .differ ∨ (∃ a, t = some a ∧ a ≠ s.laddr) → acceptHdr f t s = .stop (.err .proto) s) := by
+  rw [acceptHdr_eq]
+  constructor
+  · intro s' h
+    split at h
+    · next hc =>
+      cases h
+      have hc' : (f != HFrom.differ) = true ∧ ((t == none) = true ∨ (t == some s.laddr) = true) := by
+        simpa [hdrAccepted] using hc
+      refine ⟨by simpa using hc'.1, ?_, rfl⟩
+      rcases hc'.2 with h1 | h1
+      · exact .inl (by simpa using h1)
+      · exact .inr (by simpa using h1)
+    · cases h
+  · intro h
+    have : hdrAccepted f t s.laddr = false := by
+      rcases h with rfl | ⟨a, rfl, hne⟩
+      · simp [hdrAccepted]
+      · simp [hdrAccepted, hne]
+    rw [this]; rfl
+
+/-- **The own address is fixed.**  Whatever headers the peer sends — any `to`, any number of
+restarts, in clear text or inside TLS — `LocalAddr()` after the call (on a session or after an
+error) is the address the session was created with. -/
+theorem C02_own_address_fixed (cfg : Cfg) (env : Env) (st0 : Mask) (i : Input) (fuel : Nat) :
+    localAfter cfg env st0 i fuel = ownAddr env st0 :=
+  (run_names cfg env st0 i fuel).2.2
+
+/-- a header whose `to` is another domain (own address `user@d0`) is refused in clear text: no
+STARTTLS request, no ClientHello; with the own address as `to` the session goes through and the
+ClientHello names `d0` -/
+example :
+    run { rr := false, rt := false, sk := true, others := [], tee := false } ⟨0, 1, none, .netConn⟩ 0
+      ⟨[[.hdrA .same (some ⟨1, 1, 0⟩), .list [⟨0, true, true⟩]], [.proceed]],
+       [.unit (.hdr true), .unit (.list [])], [(0, ⟨0, false, false⟩)]⟩ 20
+      = ([.wHdr false, .deliver true false], .stop (.err .proto)) ∧
+    (run { rr := false, rt := false, sk := true, others := [], tee := false } ⟨0, 1, none, .netConn⟩ 0
+      ⟨[[.hdrA .same (some ⟨1, 0, 0⟩), .list [⟨0, true, true⟩]], [.proceed]],
+       [.unit (.hdrA .absent none), .unit (.list [])], [(0, ⟨0, false, false⟩)]⟩ 20).2 = .done 5 true true ∧
+    Ev.hello (.dom 0) ∈ (run { rr := false, rt := false, sk := true, others := [], tee := false } ⟨0, 1, none, .netConn⟩ 0
+      ⟨[[.hdrA .same (some ⟨1, 0, 0⟩), .list [⟨0, true, true⟩]], [.proceed]],
+       [.unit (.hdrA .absent none), .unit (.list [])], [(0, ⟨0, false, false⟩)]⟩ 20).1 := by
+  decide +kernel
 
 /-- every ClientHello of a session names the server of the explicit configuration, or — with
 `StartTLS(nil)` — the domain of the session's own address (whatever the peer does, whether the
